@@ -154,6 +154,7 @@ Inductive hop :=
 | HRel (s ch : nat)        (* first Release of handle s (on channel ch) *)
 | HRelAgain (s : nat)      (* a further Release of the same handle *)
 | HPeer (p : nat)          (* AddPeerStream of a new stream *)
+| HReplace (p : nat)       (* AddPeerStream again for the tuple of stream p: the stream is replaced, the remote peer's view stays *)
 | HMsg (ch msg : nat)      (* an authentic message on ch arrives; the harness waits for the callbacks *)
 | HQuiesce.                (* the harness waits until the Execute loop is idle *)
 
@@ -209,6 +210,7 @@ Fixpoint hist_run (ops : list hop) (chans : list nat) (ss : sstate) (ls : lstate
           hist_run ops' chans (fst (sstep (fst (sstep ss (SReleaseA s))) (SReleaseB s))) (lstep ls (LRelease ch)) inv obs
       | HRelAgain s => hist_run ops' chans (fst (sstep ss (SReleaseA s))) ls inv obs
       | HPeer p => hist_run ops' chans ss (lstep ls (LAddPeer p)) inv obs
+      | HReplace p => hist_run ops' chans ss (lstep ls (LReplace p)) inv obs
       | HMsg ch msg =>
           let '(s1, _) := sstep ss (SIncoming ch msg) in
           let '(s2, os) := run_jobs 64 s1 [] in
